@@ -9,7 +9,7 @@
 #include <float.h>
 #define REACH(tag) __CPROVER_assert(0, "REACH " tag)
 #ifndef MAXCH
-#define MAXCH 8
+#define MAXCH 4
 #endif
 typedef long D;
 /* ---- envelopes ---- */
